@@ -9,7 +9,7 @@ fn main() {
         let tr = abra_core::verif_asm::take_optimize_trace_display();
         for l in &tr[0] {
             println!("{l}");
-            if l.trim() == "stop" { break; }
+            if l.trim() == "stop" && std::env::var("ALL").is_err() { break; }
         }
     }).unwrap().join();
     let _ = r;
